@@ -8,16 +8,33 @@ class C16(Prop):
     title = "Emulated UEs have distinct identities derived from the configured IMSI"
     lean_module = "Stgutg.Props.C16"
     gen = []
-    theorems = []
-    domains = [Domain("ue", 300, 6000)]
+    theorems = [
+        "Stgutg.Props.C16.C16_supi_distinct",
+        "Stgutg.Props.C16.C16_supi_in_plmn",
+        "Stgutg.Props.C16.C16_suci_of_ue",
+        "Stgutg.Props.C16.C16_ran_id_distinct",
+        "Stgutg.Props.C16.C16_credentials",
+        "Stgutg.Props.C16.C16_capability",
+        "Stgutg.Props.C16.C16_capability_of_created_ue",
+    ]
+    domains = [Domain("ue", 2000, 60000)]
     rule = ("ue: whole populations CreateUE(imsi, 0..n-1) (op uepop: n in {1,2,3,10,100,999,1000,1001,4096,9999,10000} and random, "
             "MSIN lengths 1..10, MSIN exactly exhausted by the last UE / leading zeros / random, 2- and 3-digit MNC, MCC 00x, random "
             "K/OPC/OP) judged against the property predicate (all SUPIs distinct, all RAN-UE-NGAP-IDs distinct, same length, same "
             "MCC/MNC prefix, credentials carried); single CreateUE calls with random indices/credentials and malformed IMSIs (op createue); "
+            "the SUCI RegisterUE builds from a created UE's SUPI, first / last / random member of a population (op uesuci); "
             "GetUESecurityCapability for every algorithm pair 0..7 x 0..7 and random octets (op uecap); "
             "non-trivial = population of at least 2 UEs, or an accepted single call; distinct by op line")
-    trusted_base = []
-    assumptions = []
+    trusted_base = [
+        'Model/UeIdentity.lean (CreateUE, NewRanUeContext, GetAuthSubscription, GetUESecurityCapability with the four EA / four IA setters) is a hand model tied by the ue domain',
+        'strconv.Atoi and fmt.Sprintf("%0*d") are standard-library calls modelled in the same file (atoi incl. sign / syntax error -> 0 / range clamp; fmtPad0 = exactly w digits when the value fits, plain decimal otherwise, sign handling for negatives); Go int = 64-bit wrap-around (wrap64). All of it is compared with the real calls on malformed IMSIs, overflowing values and negative indices in the ue domain',
+        'Spec/Ts24501Identity.lean eaSupported / iaSupported: bit numbering of TS 24.501 9.11.3.54 octets 3 and 4',
+    ]
+    assumptions = [
+        "the configured IMSI is a non-empty decimal string of at most 18 digits (Go's int holds it; real IMSIs have at most 15); UE indices are 0..n-1 as in the loops of stg-utg.go",
+        'SUPI distinctness / PLMN membership are claimed for populations the digits can accommodate: decVal(MSIN) + n <= 10^|MSIN| (Fits / MsinFits); RAN-UE-NGAP-ID distinctness for n <= 10 000',
+    ]
+    partial_note = ('no theorem is partial')
 
     def key(self, op, impl, model, spec):
         t = op.split(" ")
